@@ -53,7 +53,7 @@ pub open spec fn oct3_spec(s: Seq<u8>) -> Option<u8> {
 }
 
 // ---------------------------------------------------------------------------------------------- stubbed parsers
-// The parser parse_hunk_header below is NOT verified (their bodies use constructs the Verus front end rejects).  Each is
+// (historical) the parsers below used to be stubs; all are verified now (their bodies use constructs the Verus front end rejects).  Each is
 // represented by an uninterpreted function of the input BYTES: the only thing assumed about them is that their
 // result is determined by the bytes they are given (they are pure functions) plus the weak framing facts stated in
 // the stub contracts of units/parser.vu.
@@ -189,8 +189,49 @@ pub ghost struct HeaderSpec {
     pub function: Seq<u8>,
     pub rest: Seq<u8>,
 }
-/// result of `parse_hunk_header` on these bytes, None for an error.  Nothing is known about the numbers.
-pub uninterp spec fn spec_hunk_header(input: Seq<u8>) -> Option<HeaderSpec>;
+/// what follows the first k bytes
+pub open spec fn after(s: Seq<u8>, k: int) -> Seq<u8> { s.subrange(k, s.len() as int) }
+/// one text line WITHOUT its LF, and what follows the LF; None when there is no LF
+pub open spec fn split_line_skip(s: Seq<u8>) -> Option<(Seq<u8>, Seq<u8>)> {
+    if absent(s, 10) { None } else { Some((s.subrange(0, lf_index(s)), s.subrange(lf_index(s) + 1, s.len() as int))) }
+}
+
+/// A hunk header, written from the unified format ("@@ -N[,M] +N[,M] @@[ section heading]", GNU diffutils manual,
+/// "Detailed Description of Unified Format") and GNU patch's leniency about the closing "@@" (a single "@" is enough and
+/// whatever follows on the line is ignored unless it is "@ " + heading), NOT from the code:
+///   "@@ -" range " +" range " @"  then either "@ " heading LF   (function = heading)
+///                                  or anything up to and including the LF (function = empty).
+/// The numbers are decimal (spec_number via line_and_count_spec); `rest` is the input after the line.
+pub open spec fn spec_hunk_header(input: Seq<u8>) -> Option<HeaderSpec> {
+    if !prefix_is(input, seq![64u8, 64u8, 32u8, 45u8]) { None } else {
+        match line_and_count_spec(after(input, 4)) {
+            None => None,
+            Some((i2, (rl, rc))) =>
+                if !prefix_is(i2, seq![32u8, 43u8]) { None } else {
+                    match line_and_count_spec(after(i2, 2)) {
+                        None => None,
+                        Some((i3, (al, ac))) =>
+                            if !prefix_is(i3, seq![32u8, 64u8]) { None } else {
+                                let i4 = after(i3, 2);
+                                if prefix_is(i4, seq![64u8, 32u8]) {
+                                    match split_line_skip(after(i4, 2)) {
+                                        None => None,
+                                        Some((heading, rest)) => Some(HeaderSpec { remove_line: rl, remove_count: rc, add_line: al,
+                                                                                  add_count: ac, function: heading, rest: rest }),
+                                    }
+                                } else {
+                                    match split_line_incl(i4) {
+                                        None => None,
+                                        Some((_line, rest)) => Some(HeaderSpec { remove_line: rl, remove_count: rc, add_line: al,
+                                                                                 add_count: ac, function: Seq::empty(), rest: rest }),
+                                    }
+                                }
+                            },
+                    }
+                },
+        }
+    }
+}
 
 pub ghost struct HunkLineSpec {
     pub ty: HunkLineType,
